@@ -51,6 +51,7 @@ def run(ctx):
     side_rules(ctx, cg)
     side_rules_2(ctx)
     side_rules_3(ctx)
+    side_rules_4(ctx, cg)
     # ---- side conditions of the reviewed entries (evaluated lazily, once)
     side = RV.SideConditions(ctx)
     n_sites, n_dis, by_rule = check_sites(ctx, D, side, reach, "site")
@@ -235,6 +236,110 @@ def side_rules_3(ctx):
                       "the first component returned by get_cookie must be data[..8] obtained with a check (is %s): a shorter client cookie "
                       "reaches set_cookie's length assertion when the reply is built" % show(first)[:100])
     ctx.floor("S3", "cookie pairs built by the accessor", n, 1)
+
+
+def _AWAIT_STEP(name):
+    """the calls `.await` expands to"""
+    return name.endswith("::into_future") or name.startswith("std::pin::Pin::<Ptr>::new_unchecked") or name.endswith("::poll") or \
+        name.endswith("::get_context")
+
+
+def side_rules_4(ctx, cg):
+    """S4: the task serving a TCP upstream answers its requesters with `oneshot::Sender::send(..).unwrap()`, which panics when the
+    receiver is gone.  The receiver is never gone while the requester lives: it is awaited directly, and so is every future on the
+    way up to the task root, with no deadline or select that could drop it early."""
+    P = ctx.P
+    roots = [b for b in P.bodies.values() if "::test" not in b.id and "erbium::dns::" in b.id and
+             any((callee_name(tm) or "").startswith("tokio::sync::oneshot::channel") for _, tm in b.calls())]
+    if not roots:
+        if ctx.config in ("default", "dns"):
+            ctx.bad("S4", "anchor:oneshot-channel", "", "no oneshot channel is created below erbium::dns")
+        return
+
+    def fn_of(b):
+        x = b
+        while x.kind in ("closure", "coroutine") and x.parent in P.bodies and P.bodies[x.parent].kind != "closure" and x.id.startswith(x.parent):
+            # the coroutine of an async fn: its future is what callers hold
+            return x.parent
+        return x.id
+
+    def consumers(b, match):
+        """calls of b one of whose arguments is (through moves) the value `match` recognises"""
+        Tb = terms(P, b)
+        out = []
+        for bb, tm in b.calls():
+            for a in Tb.call_args(bb):
+                a = norm(a)
+                while a[0] in ("ref", "deref"):
+                    a = norm(a[1])
+                if match(a):
+                    out.append((callee_name(tm) or "?", tm))
+        return out
+
+    n = 0
+    for b in roots:
+        ctx.saw(b)
+        T = terms(P, b)
+        # the receiver half
+        for bb, tm in b.calls():
+            if not (callee_name(tm) or "").startswith("tokio::sync::oneshot::channel"):
+                continue
+            rx_locals = [lambda a, bb=bb: a[0] == "field" and a[2] == "1" and norm(a[1])[0] == "call" and
+                         str(norm(a[1])[1]).startswith("tokio::sync::oneshot::channel") and norm(a[1])[3] == bb]
+            for rx in rx_locals:
+                n += 1
+                cons = consumers(b, rx)
+                bad = [c for c, _ in cons if not _AWAIT_STEP(c)]
+                ctx.check(bool(cons) and not bad, "S4", "receiver-awaited-without-a-deadline:%s" % b.id.split("::{")[0].rsplit("::", 1)[-1], ctx.where(b, tm["sp"]),
+                          "the oneshot receiver must be consumed by a plain `.await` (it is handed to %s): a deadline or select drops it, "
+                          "and the upstream task's `send(..).unwrap()` then panics and takes the connection's other queries with it" % (bad or "nothing"))
+        # ... and nobody above abandons the future that holds it.  Units: an async fn (its callers hold the future) or an async
+        # block / closure (the body that builds it holds it); the walk ends at a block handed to tokio::spawn.
+        def unit_of(x):
+            if x.kind == "coroutine" and x.parent in P.bodies and P.bodies[x.parent].kind in ("fn", "assoc_fn"):
+                return x.parent
+            return x.id
+
+        def polls(name, unit):
+            cor = [y.id for y in P.bodies.values() if y.kind == "coroutine" and y.parent == unit] + [unit]
+            return _AWAIT_STEP(name) or name in cor
+        seen, todo = set(), [unit_of(b)]
+        while todo:
+            u = todo.pop()
+            if u in seen or u not in P.bodies:
+                continue
+            seen.add(u)
+            ub = P.bodies[u]
+            if ub.kind in ("fn", "assoc_fn"):
+                is_async = any(x.kind == "coroutine" and x.parent == u for x in P.bodies.values())
+                for cb, cbb, ctm in cg.callers(u):
+                    if "::test" in cb.id:
+                        continue
+                    cons = consumers(cb, lambda a, u=u, cbb=cbb: a[0] == "call" and a[1] == u and len(a) > 3 and a[3] == cbb)
+                    if not cons and not is_async:
+                        continue      # a synchronous call: nothing is held
+                    n += 1
+                    names = [c for c, _ in cons]
+                    bad = [c for c in names if not polls(c, u)] or ([] if cons else ["nothing in this function (captured by a closure or a macro?)"])
+                    ctx.check(not bad, "S4", "future-awaited-without-a-deadline:%s<-%s" % (u.rsplit("::", 1)[-1], unit_of(cb).split("::{")[0].rsplit("::", 1)[-1]),
+                              ctx.where(cb, ctm["sp"]), "the future of %s must be awaited directly on the way up to its task (handed to %s)" % (u, bad or "-"))
+                    todo.append(unit_of(cb))
+            else:
+                pb = P.bodies.get(ub.parent)
+                if pb is None:
+                    continue
+                cons = consumers(pb, lambda a, u=u: closure_def_of_term(a) == u)
+                names = [c for c, _ in cons]
+                n += 1
+                if any(c.startswith("tokio::spawn") or c.startswith("tokio::task::spawn") or c.startswith("tokio::runtime::Runtime::block_on") or
+                       c.startswith("tokio::runtime::Runtime::spawn") for c in names):
+                    ctx.ok("S4", "task-root:%s" % u.split("::{")[0].rsplit("::", 1)[-1], ctx.where(pb))
+                    continue
+                bad = [c for c in names if not polls(c, u)] or ([] if cons else ["nothing in this function (captured by a closure or a macro?)"])
+                ctx.check(not bad, "S4", "block-awaited-without-a-deadline:%s" % u.split("::{")[0].rsplit("::", 1)[-1], ctx.where(pb),
+                          "the async block %s must be awaited directly or spawned (handed to %s)" % (u, bad or "-"))
+                todo.append(unit_of(pb))
+    ctx.floor("S4", "awaits between the oneshot receiver and its task root", n, 3)
 
 
 def _straight_to_panic(cfg, bb, panics):
